@@ -28,7 +28,7 @@ def effective_newline(spec):
 _vocab = None
 
 
-def count_model_applies(meta):
+def count_model_applies(meta, spec_text=None):
     """The tabstop count model assumes element names outside every snippet table and
     attribute names outside the boolean-attribute list; the tables are read (data only)
     so that a legitimate change of them switches the count check off instead of alarming."""
@@ -45,6 +45,8 @@ def count_model_applies(meta):
     keys, booleans = _vocab
     if any(n in keys for n in meta.get('names', ())):
         return False
+    if meta.get('wrap') != spec_text:
+        return False        # the count was made for another wrap text (e.g. a minimisation candidate)
     if any(a.lower() in booleans for a in meta.get('attrs', ())):
         return False
     return True
@@ -139,7 +141,7 @@ def check_call(run, i, op, result):
         if idx != list(range(1, len(idx) + 1)):
             bad('numbering-document-order', {'indices-in-document-order': idx})
             return
-        if 'expect' in meta and not count_model_applies(meta):
+        if 'expect' in meta and not count_model_applies(meta, spec.get('text')):
             run.count('c13:count-model-not-applicable(vocabulary now in a snippet table / boolean list)')
         elif 'expect' in meta:
             run.count('c13:calls-numbering-counted')
